@@ -41,12 +41,21 @@ func c07Spec() *histSpec {
 					{Name: "改", Params: []string{"V"}, Body: c07S(c07M(zn.This{Name: "P"}, "后增", c07V("V")))},
 					{Name: "设", Params: []string{"V"}, Body: c07S(zn.Assign{Target: zn.This{Name: "N"}, Val: c07V("V")})},
 				}},
+			// a type WITH a constructor that assigns only N: P keeps its default, which every
+			// instance must still get as its own copy
+			zn.Class{Name: "构", Props: []zn.Prop{{Name: "P", Val: zn.List{Items: []zn.Expr{one}}}, {Name: "N", Val: zn.Num{Lit: "0"}}},
+				Methods: []zn.Func{
+					{Name: "改", Params: []string{"V"}, Body: c07S(c07M(zn.This{Name: "P"}, "后增", c07V("V")))},
+					{Name: "设", Params: []string{"V"}, Body: c07S(zn.Assign{Target: zn.This{Name: "N"}, Val: c07V("V")})},
+				}},
+			zn.Func{Name: "构", Ctor: true, Params: []string{"初"}, Body: c07S(zn.Assign{Target: zn.This{Name: "N"}, Val: c07V("初")})},
 		},
 		Init: []histOp{
 			{Label: "令A = 【【1】，【2】】", Declares: []string{"A"}, Stmts: c07Decl([]string{"A"}, zn.List{Items: []zn.Expr{zn.List{Items: []zn.Expr{one}}, zn.List{Items: []zn.Expr{zn.Num{Lit: "2"}}}}})},
 			{Label: "令A = 【K=【1】】", Declares: []string{"A"}, Stmts: c07Decl([]string{"A"}, zn.Dict{Pairs: []zn.DictPair{{Key: "K", Val: zn.List{Items: []zn.Expr{one}}}}})},
 			{Label: "令A = 【【K=1】】", Declares: []string{"A"}, Stmts: c07Decl([]string{"A"}, zn.List{Items: []zn.Expr{zn.Dict{Pairs: []zn.DictPair{{Key: "K", Val: one}}}}})},
 			{Label: "令A = （新建型）", Declares: []string{"A"}, Stmts: c07Decl([]string{"A"}, zn.New{Class: "型"})},
+			{Label: "令A = （新建构：3）", Declares: []string{"A"}, Stmts: c07Decl([]string{"A"}, zn.New{Class: "构", Args: []zn.Expr{zn.Num{Lit: "3"}}})},
 		},
 		Observe: func(declared []string) []zn.Stmt {
 			var args []zn.Expr
@@ -76,6 +85,7 @@ func c07Spec() *histSpec {
 		}
 		if len(fresh) > 0 {
 			add(fmt.Sprintf("令%s = （新建型）", fresh[0]), fresh[:1], c07Decl(fresh[:1], zn.New{Class: "型"}))
+			add(fmt.Sprintf("令%s = （新建构：3）", fresh[0]), fresh[:1], c07Decl(fresh[:1], zn.New{Class: "构", Args: []zn.Expr{zn.Num{Lit: "3"}}}))
 		}
 		for _, y := range declared {
 			if len(fresh) > 0 {
@@ -122,6 +132,18 @@ func c07Spec() *histSpec {
 			add(fmt.Sprintf("%s#“K” = n", x), nil, c07S(zn.Assign{Target: c07Idx(X, kk), Val: n}))
 			add(fmt.Sprintf("%s#1#“K” = n", x), nil, c07S(zn.Assign{Target: c07Idx(c07Idx(X, one), kk), Val: n}))
 			add(fmt.Sprintf("%s#“K”#1 = n", x), nil, c07S(zn.Assign{Target: c07Idx(c07Idx(X, kk), one), Val: n}))
+			// numbers are changed in place by 自增: a copy must not share its number items
+			add(fmt.Sprintf("以%s#1（自增：n）", x), nil, c07S(c07M(c07Idx(X, one), "自增", n)))
+			add(fmt.Sprintf("以%s#1#1（自增：n）", x), nil, c07S(c07M(c07Idx(c07Idx(X, one), one), "自增", n)))
+			add(fmt.Sprintf("以%s#“K”#1（自增：n）", x), nil, c07S(c07M(c07Idx(c07Idx(X, kk), one), "自增", n)))
+			// plain assignment from a call that returns an EXISTING collection (a mutating method
+			// returns its receiver): the assigned name still gets its own copy
+			for _, y := range declared {
+				if y != x {
+					add(fmt.Sprintf("%s = 以%s（后增：n）", x, y), nil, c07S(zn.Assign{Target: X, Val: c07M(c07V(y), "后增", n)}))
+					add(fmt.Sprintf("%s = 以%s（读取：“K”）", x, y), nil, c07S(zn.Assign{Target: X, Val: c07M(c07V(y), "读取", kk)}))
+				}
+			}
 			add(fmt.Sprintf("以%s（后增：n）", x), nil, c07S(c07M(X, "后增", n)))
 			add(fmt.Sprintf("以%s（前增：n）", x), nil, c07S(c07M(X, "前增", n)))
 			add(fmt.Sprintf("以%s#1（后增：n）", x), nil, c07S(c07M(c07Idx(X, one), "后增", n)))
@@ -279,7 +301,7 @@ func init() {
 	mc.Register(&mc.Check{
 		ID:    "C07",
 		Level: "model_checking",
-		Rule: "E2: breadth-first search over operation histories on names A B C starting from 4 initial values (nested list, dictionary of list, list of dictionary, object with a list property); operations: 令X = Y, 令X恒为Y, 令X恒为Y#1, 令X、Z恒为Y, 令X = 【Y，9】, X = 【Y，9】, X#“K” = 【K=Y】, 令X = Y之P, 令X = Y#1, 令X、Z = Y, X = Y, X之P = Y, X#1 = Y, X#“K” = Y, element / key / nested assignments, 后增 前增 左移 右移 移除 合并 at top and nested level, object methods and property writes; every successor is produced by re-running the whole history on a fresh real interpreter; all live names are observed structurally after every operation and compared with the reference (heap of trees, pointers only for objects); after every transition a probe battery mutates every container position reachable from every name and observes all names. States are merged on the reference state (values + object identity structure). Plus the literal-freshness programs: 5 literals (list, dictionary, nested list, a number, a list of a number) x 6 in-place changes x 9 contexts (bound in a method called twice, bound in a loop body, returned by a method and bound, returned and changed without being bound, one literal site executed three times with every value stored WITHOUT a copy - appended / passed to a method that appends it / returned by a method and appended - and one stored value changed after the loop or right after the first pass).",
+		Rule: "E2: breadth-first search over operation histories on names A B C starting from 5 initial values (nested list, dictionary of list, list of dictionary, object with a list property, object of a type whose constructor leaves the list property alone); operations: 令X = Y, 令X恒为Y, 令X恒为Y#1, 令X、Z恒为Y, 令X = 【Y，9】, X = 【Y，9】, X#“K” = 【K=Y】, 令X = Y之P, 令X = Y#1, 令X、Z = Y, X = Y, X之P = Y, X#1 = Y, X#“K” = Y, element / key / nested assignments, in-place 自增 of (nested) number items, X = 以Y（后增：n） and X = 以Y（读取：“K”） (assignment from a call that returns an existing collection), 后增 前增 左移 右移 移除 合并 at top and nested level, object methods and property writes; every successor is produced by re-running the whole history on a fresh real interpreter; all live names are observed structurally after every operation and compared with the reference (heap of trees, pointers only for objects); after every transition a probe battery mutates every container position reachable from every name and observes all names. States are merged on the reference state (values + object identity structure). Plus the literal-freshness programs: 5 literals (list, dictionary, nested list, a number, a list of a number) x 6 in-place changes x 9 contexts (bound in a method called twice, bound in a loop body, returned by a method and bound, returned and changed without being bound, one literal site executed three times with every value stored WITHOUT a copy - appended / passed to a method that appends it / returned by a method and appended - and one stored value changed after the loop or right after the first pass).",
 		Assumptions: []string{
 			"list/dictionary values passed as method arguments or bound by 得到 / loop variables are by-reference today and unspecified: method arguments are fresh scalars or literals only",
 			"histories are merged on the reference state only for generating successors; the probe battery (mutate through each name at each position, observe all) runs after every transition, also one that reaches a reference state seen before",
